@@ -596,6 +596,22 @@ fn one_case(ctx: &Ctx, case: u64, l: &mut Local) {
                     l.count("json.withheld-disclosure-in-unknown-member");
                 }
             }
+            // a HOLDER built from either form of the same well-formed triple is built (or refused) alike
+            if !kbreq && ["honest", "kb-on-unbound", "kb-removed", "disc-removed", "disc-reordered", "kb-other-key", "kb-nonce-other"].contains(&class) {
+                let (ha, hb) = (api::holder_new(&c, Fmt::Compact).map(|_| ()), api::holder_new(&j, Fmt::Json).map(|_| ()));
+                l.evals += 1;
+                if ha.class() == hb.class() {
+                    l.count("holder.same-construction-outcome");
+                } else {
+                    l.violate(Violation {
+                        subcheck: "holder-selection-differs-between-formats".into(),
+                        class: format!("holder construction from a {class} triple"),
+                        observed: format!("Compact={} JSON={}", ha.class(), hb.class()),
+                        case,
+                        detail: json!({"credential": desc, "class": class, "compact": c, "json": j}),
+                    });
+                }
+            }
             let pair = if kbreq { Some((aud.as_str(), nonce.as_str())) } else { None };
             let a = api::verify(&c, &res, pair, Fmt::Compact).out;
             let b = api::verify(&j, &res, pair, Fmt::Json).out;
